@@ -1,15 +1,16 @@
 // C16 — proposer selection is deterministic and proportional to voting power.
 //
 // Monitors over the real types.ValidatorSet:
-//  (a1) IncrementAccum(k) ≡ k × IncrementAccum(1) (proposer and accums)
-//  (a2) a set rebuilt from its persisted bytes (go-wire binary / JSON, as
-//       State.Save/Load does) names the same proposer now and for the next
-//       2·T single increments; (a3) the same for Copy()
-//  (b)  in every window of T consecutive single increments each validator is
-//       proposer exactly VotingPower times (unchanged set)
-//  (c)  Add/Update/Remove interleaved with Copy(): strictly sorted, no
-//       duplicates, matches a reference map model, copies are independent,
-//       equal operation sequences give equal Hash().
+//
+//	(a1) IncrementAccum(k) ≡ k × IncrementAccum(1) (proposer and accums)
+//	(a2) a set rebuilt from its persisted bytes (go-wire binary / JSON, as
+//	     State.Save/Load does) names the same proposer now and for the next
+//	     2·T single increments; (a3) the same for Copy()
+//	(b)  in every window of T consecutive single increments each validator is
+//	     proposer exactly VotingPower times (unchanged set)
+//	(c)  Add/Update/Remove interleaved with Copy(): strictly sorted, no
+//	     duplicates, matches a reference map model, copies are independent,
+//	     equal operation sequences give equal Hash().
 package main
 
 import (
